@@ -2,30 +2,34 @@
 import glob, json, os, shutil
 import vlib
 
-TARGETS = ["Base/Corr.vo", "C10/Gen.vo", "C10/Model.vo", "C10/ModelSparse.vo", "C10/Corr.vo", "C10/Spec.vo",
+TARGETS = ["Base/Corr.vo", "C10/Gen.vo", "C10/GenAcc.vo", "C10/Model.vo", "C10/ModelSparse.vo", "C10/Corr.vo", "C10/Spec.vo",
            "C10/ProofsIndex.vo", "C10/ProofsViews.vo", "C10/ProofsIter.vo", "C10/ProofsIterSkip.vo", "C10/ProofsOps.vo",
-           "C10/ProofsTip.vo", "C10/ProofsTipGen.vo", "C10/ProofsOpsView.vo", "C10/ProofsSparse.vo", "C10/ProofsSparseT.vo", "C10/Props.vo"]
+           "C10/ProofsTip.vo", "C10/ProofsTipGen.vo", "C10/ProofsOpsView.vo", "C10/ProofsSparse.vo", "C10/ProofsSparseT.vo",
+           "C10/ProofsAcc.vo", "C10/ProofsPermView.vo", "C10/ProofsTipAll.vo", "C10/ProofsTipView.vo", "C10/Props.vo"]
 PROPS = ["C10/Props.v"]
 PARTIAL = (
     "The integer kernels (index, ij, SLICE/Slice/ConstSlice, T/MagicT, Dims, dense iterator Ok/next/Index) are re-translated "
-    "from all 18 matrix instantiations of the repository on every run (go2coq_c10 -> Gen.v) and the theorems are re-checked "
-    "against the regenerated text; everything that touches storage (element access, Reset/Set/SetIdentity, element-wise ops, "
-    "MdotM/MdotV/VdotM, Row/Col/Diag, ConstRow/ConstCol, Swap*/Permute*, Tip, AsVector/AsMatrix, Clone, MarshalJSON, "
-    "String/Table/Export, iterators with their zero-skipping loop; sparse: the same header over one sorted (index,value) "
-    "list, T() re-layout) is the hand-written model of Model.v/ModelSparse.v, tied by exact replay. Go int is Z (header "
-    "fields are bounded by slice lengths, no overflow); element values are Z (small integers, exact in every element type). "
-    "Tip on a non-transposed whole-storage matrix is proved for every storage content (naturality lemma) on all shapes up "
-    "to 24x24 (finite sweep in Coq), not for unbounded shapes: the number theory of the cycle map (cell (i,j) goes to cell "
-    "(j,i); gcd(rows, mn-1)=1; the map is a permutation of [0,mn-1) with explicit inverse) is proved for every shape, the "
-    "induction over the cycles with the visited set is not; Tip on a transposed matrix (after fix 2ffe99c) is proved for "
-    "every header. Operation-on-view = operation-on-deep-copy is a theorem for every read-only/arithmetic operation of "
-    "the model that reaches storage through index (element reads, Row/Col/Diag, MdotV/VdotM, the inner products of MdotM "
-    "with both operands views, String/Table, Export, IsSymmetric, MarshalJSON, both iterators) and for the whole-matrix "
-    "writes (Reset, SetIdentity, Set and element-wise ops with independent operands); for the in-place permuting writes "
-    "(Swap, SwapRows/SwapColumns, Permute*, MdotM with the view as receiver) it is decided by the exact replay and the "
-    "exhaustive implementation-level hunt, not by a theorem. Sparse T() is proved for whole matrices of every shape and "
-    "content; sparse views are covered by witness refutations. Known findings (F-ASVEC, F-SPITER, F-SPT, F-SPT-REF, F-IJ-T) "
-    "are excluded from the universally quantified statements and refuted by witness lemmas instead.")
+    "from all 18 matrix instantiations of the repository on every run (go2coq_c10 -> Gen.v), and so is the copy-vs-reference "
+    "table of the 11 vector-returning dense accessors per value of the transposed flag (go2coq_c10/acc.go -> GenAcc.v: "
+    "values[a:b] = AliasesStorage, fresh vector filled element-wise = Copies, or SharesCells for the pointer elements of "
+    "Real32/Real64 without Clone()); the theorems are re-checked against the regenerated text. Everything that touches "
+    "storage (element access, Reset/Set/SetIdentity, element-wise ops, MdotM/MdotV/VdotM, Row/Col/Diag, ConstRow/ConstCol, "
+    "Swap*/Permute*, Tip, AsVector/AsMatrix, Clone, MarshalJSON, String/Table/Export, iterators with their zero-skipping "
+    "loop; sparse: the same header over one sorted (index,value) list, T() re-layout) is the hand-written model of "
+    "Model.v/ModelSparse.v, tied by exact replay. Go int is Z (header fields are bounded by slice lengths, no overflow); "
+    "element values are Z (small integers, exact in every element type). Tip is proved for EVERY shape and storage "
+    "content (induction over the cycles with the visited set and the skip test as coded; the model's fuel mn+1 is never "
+    "exhausted) on matrices that own their storage, and on transposed views (flag cleared); on NON-transposed proper "
+    "windows the code is wrong (proposed finding F-TIP-VIEW, refuted by witnesses). Operation-on-view = operation-on-"
+    "deep-copy is a theorem for every read-only/arithmetic operation of the model, for the whole-matrix writes, and now "
+    "for the in-place permuting writes (Swap, SwapRows/SwapColumns, PermuteRows/PermuteColumns/SymmetricPermutation, MdotM "
+    "with the view as receiver in both schedules): same outcome, view = copy's elements, frame, heap = copy written back; "
+    "the product needs a non-empty receiver (storageLocation of an empty copy panics) and operands in other storages "
+    "(view.MdotM(view, view) and element-wise ops whose operand shares the receiver's storage are decided by replay). "
+    "Not modelled: Map/MapSet/Reduce callbacks, the joint iterators, element types' rounding (values are small integers). "
+    "Sparse T() is proved for whole matrices of every shape and content; sparse views are covered by witness refutations. "
+    "Known findings (F-ASVEC, F-SPITER, F-SPT, F-SPT-REF, F-IJ-T, proposed F-TIP-VIEW) are excluded from the universally "
+    "quantified statements and refuted by witness lemmas instead.")
 
 
 def known_list():
@@ -63,7 +67,7 @@ def match_known(f, kfs):
 
 # ---------------------------------------------------------------- translator (T2)
 
-def private_tree(ctx, gen_text):
+def private_tree(ctx, gen_text, acc_text=None):
     """REPO is redirected and its kernels differ from the committed Gen.v: compile Base + C10 with the
     regenerated Gen.v in a private tree under ctx.dir (the shared coq/ tree is left alone)."""
     root = os.path.join(ctx.dir, "coq")
@@ -72,6 +76,8 @@ def private_tree(ctx, gen_text):
         for f in glob.glob(os.path.join(vlib.ROOT, "coq", d, "*.v")):
             shutil.copy(f, os.path.join(root, d, os.path.basename(f)))
     open(os.path.join(root, "C10", "Gen.v"), "w").write(gen_text)
+    if acc_text is not None:
+        open(os.path.join(root, "C10", "GenAcc.v"), "w").write(acc_text)
     return root
 
 
@@ -84,8 +90,9 @@ def translate(ctx):
         return False, [{"target": "go2coq_c10 build", "lemma": None, "errors": [tlog[-1500:]]}]
     gen = os.path.join(ctx.dir, "Gen.v")
     rep = os.path.join(ctx.dir, "gen_report.json")
-    rc, out = vlib.sh([tool, "-repo", vlib.REPO, "-out", gen, "-report", rep], timeout=120, env=vlib.go_env())
-    if rc != 0 or not os.path.exists(gen) or not os.path.exists(rep):
+    acc = os.path.join(ctx.dir, "GenAcc.v")
+    rc, out = vlib.sh([tool, "-repo", vlib.REPO, "-out", gen, "-acc", acc, "-report", rep], timeout=120, env=vlib.go_env())
+    if rc != 0 or not os.path.exists(gen) or not os.path.exists(rep) or not os.path.exists(acc):
         ctx.oblige(1, 0)
         return False, [{"target": "go2coq_c10 run", "lemma": None, "errors": [out[-1500:]]}]
     report = json.load(open(rep))
@@ -93,20 +100,28 @@ def translate(ctx):
     ok = bool(report.get("ok"))
     ctx.oblige(1, 1 if ok else 0)
     if not ok:
-        failures.append({"target": "translation of the index kernels (an instantiation differs from its family or a "
-                                   "construct is outside the translated grammar)", "lemma": None,
+        failures.append({"target": "translation of the index kernels / accessor table (an instantiation differs from its "
+                                   "family or a construct is outside the translated grammar)", "lemma": None,
                          "errors": [json.dumps({k: v for k, v in report.items() if k != "ok"})[:1500]]})
-    new = open(gen).read()
+    new, new_acc = open(gen).read(), open(acc).read()
     committed_path = os.path.join(vlib.ROOT, "coq", "C10", "Gen.v")
+    acc_path = os.path.join(vlib.ROOT, "coq", "C10", "GenAcc.v")
     committed = open(committed_path).read() if os.path.exists(committed_path) else ""
+    committed_acc = open(acc_path).read() if os.path.exists(acc_path) else ""
     ctx.cov["gen_changed"] = new != committed
-    if new != committed:
+    ctx.cov["gen_acc_changed"] = new_acc != committed_acc
+    if new != committed or new_acc != committed_acc:
         if os.path.abspath(vlib.REPO) == "/repo":
-            open(committed_path, "w").write(new)      # the regenerated file is the model from now on
-            ctx.log("Gen.v regenerated from %s differs from the previous one: proofs are re-checked against it" % vlib.REPO)
+            # the regenerated files are the model from now on (a file is only rewritten when it differs:
+            # Gen.v is imported by C08 C09 C12, its timestamp must not move needlessly)
+            if new != committed:
+                open(committed_path, "w").write(new)
+            if new_acc != committed_acc:
+                open(acc_path, "w").write(new_acc)
+            ctx.log("Gen.v / GenAcc.v regenerated from %s differ from the previous ones: proofs are re-checked against them" % vlib.REPO)
         else:
-            vlib.COQ = private_tree(ctx, new)          # redirected run: never touch the shared tree
-            ctx.log("Gen.v regenerated from %s differs: proofs re-checked in private tree %s" % (vlib.REPO, vlib.COQ))
+            vlib.COQ = private_tree(ctx, new, new_acc)   # redirected run: never touch the shared tree
+            ctx.log("Gen.v / GenAcc.v regenerated from %s differ: proofs re-checked in private tree %s" % (vlib.REPO, vlib.COQ))
     return ok, failures
 
 
